@@ -346,11 +346,12 @@ func mergeLocalReplaces(base, local *modfile.File) (*modfile.File, error) {
 		deps[mpath] = &d
 	}
 	eff := &modfile.File{
-		Module:   base.Module,
-		Language: base.Language,
-		Source:   base.Source,
-		Custom:   base.Custom,
-		Deps:     deps,
+		Module:      base.Module,
+		Language:    base.Language,
+		Source:      base.Source,
+		Description: base.Description,
+		Custom:      base.Custom,
+		Deps:        deps,
 	}
 	if !hasReplace(eff) {
 		return nil, nil
@@ -412,11 +413,12 @@ func seedReplacementTargets(ctx context.Context, localMF *modfile.File, rsPub *m
 		deps[targetPath] = &modfile.Dep{Version: version}
 	}
 	seeded := &modfile.File{
-		Module:   localMF.Module,
-		Language: localMF.Language,
-		Source:   localMF.Source,
-		Custom:   localMF.Custom,
-		Deps:     deps,
+		Module:      localMF.Module,
+		Language:    localMF.Language,
+		Source:      localMF.Source,
+		Description: localMF.Description,
+		Custom:      localMF.Custom,
+		Deps:        deps,
 	}
 	if err := seeded.InitNonStrict(); err != nil {
 		return nil, err
@@ -549,11 +551,12 @@ func modfileFromRequirements(old *modfile.File, rs *modrequirements.Requirements
 	// want to just copy the entirety of old because that includes
 	// private fields too.
 	mf := &modfile.File{
-		Module:   old.Module,
-		Language: old.Language,
-		Deps:     make(map[string]*modfile.Dep),
-		Source:   old.Source,
-		Custom:   old.Custom,
+		Module:      old.Module,
+		Language:    old.Language,
+		Deps:        make(map[string]*modfile.Dep),
+		Source:      old.Source,
+		Description: old.Description,
+		Custom:      old.Custom,
 	}
 	var replByPath map[string]string
 	if replSource != nil {
